@@ -49,7 +49,7 @@ class _PipeIn(io.StringIO):
         return False
 
 
-def run_main(tool, argv, stdin_text=''):
+def run_main(tool, argv, stdin_text='', rnd=0):
     import cnfgen.clitools.msg as msg
     mod = sys.modules['cnfgen.clitools.' + tool]
     out, err = _Out(), _Out()
@@ -61,7 +61,7 @@ def run_main(tool, argv, stdin_text=''):
     code = 0
     try:
         try:
-            with stream(0):
+            with stream(rnd):
                 mod.main()
         except SystemExit as e:
             code = e.code
@@ -2091,3 +2091,93 @@ def h_e_postparse(tool_i: int, ci: int, fi: int) -> bool:
     post: _
     """
     return untraced(_postparse, pick(tool_i, 0, 1), pick(ci, 0, 9), pick(fi, 0, 7))
+
+
+# ------------------------------------------------ random constructions pushed into their fallback code paths
+FALLBACK_CMDS = [
+    ('cnfgen', ['kclique', 3, 'gnm', 5, 9, 'addedges', 1]), ('cnfgen', ['kclique', 3, 'complete', 4, 'addedges', 0]),
+    ('cnfgen', ['kcolor', 2, 'gnm', 4, 6]), ('cnfgen', ['kcolor', 2, 'gnm', 4, 5, 'addedges', 1]), ('cnfgen', ['kcolor', 2, 'empty', 4, 'addedges', 6]),
+    ('cnfgen', ['php', 'glrm', 3, 3, 9]), ('cnfgen', ['php', 'glrm', 3, 3, 8, 'addedges', 1]), ('cnfgen', ['php', 'empty', 3, 3, 'addedges', 9]),
+    ('cnfgen', ['php', 'glrd', 3, 3, 3]), ('cnfgen', ['php', 'glrd', 3, 4, 3, 'addedges', 3]), ('cnfgen', ['php', 'regular', 3, 3, 2, 'addedges', 3]),
+    ('cnfgen', ['subsetcard', 3, 2]), ('cnfgen', ['subsetcard', 4, 3]), ('cnfgen', ['subsetcard', 3, 3]),
+    ('cnfgen', ['randkcnf', 2, 3, 12]), ('cnfgen', ['randkcnf', 1, 3, 6]), ('cnfgen', ['randkxor', 2, 3, 6]), ('cnfgen', ['randkcnf', '-p', 2, 3, 9]),
+    ('cnfgen', ['kclique', 3, 'gnm', 5, 4, 'plantclique', 5]), ('cnfgen', ['tiling', 'complete', 4, 'splitedges', 6]),
+    ('cnfgen', ['php', 'complete', 3, 3, 'plantbiclique', 3, 3]), ('pbgen', ['php', 'glrm', 3, 3, 8, 'addedges', 1]),
+    ('pbgen', ['kcolor', 2, 'gnm', 4, 5, 'addedges', 1]), ('cnfgen', ['op', 3, '-T', 'xorcomp', 'glrm', 6, 3, 18]),
+    ('cnfgen', ['op', 3, '-T', 'majcomp', 'glrm', 6, 3, 17, 'addedges', 1]), ('cnfgen', ['stone', 2, 'pyramid', 1, '--sparse', 2]),
+]
+FB_STREAMS = [lambda i: 0, lambda i: 10 ** 6 - 1, lambda i: (i // 3) % 2, lambda i: i // 2, lambda i: (i * 7 + 3) % 5]
+
+
+def _fallbacks(ci, st):
+    from vlib.xh.xutil import TapeExhausted
+    import vlib.xh.c17 as c17
+    tool, argv = FALLBACK_CMDS[ci]
+    saved = list(c17.STREAMS)
+    c17.STREAMS.append(FB_STREAMS[st])
+    try:
+        code, out, err = run_main(tool, argv, rnd=len(c17.STREAMS) - 1)
+    except (TapeExhausted, RecursionError):
+        return True                        # a rejection loop / restart chain that never ends under this stream: cut
+    finally:
+        c17.STREAMS[:] = saved
+    if 'maximum recursion depth exceeded' in err:
+        # bipartite_random_regular restarts itself when a run of draws leads to a dead end (a Las Vegas algorithm): under a
+        # constant or short-period stream every restart repeats the same draws.  Not a behaviour of a random source: cut
+        return True
+    return classify(tool, argv, code, out, err)
+
+
+def h_e_fallbacks(ci: int, st: int) -> bool:
+    """
+    pre: 0 <= ci <= 25 and 0 <= st <= 4
+    post: _
+    """
+    return untraced(_fallbacks, pick(ci, 0, len(FALLBACK_CMDS) - 1), pick(st, 0, 4))
+
+
+# ------------------------------------------------ operating-system errors while reading or saving a graph / formula file
+OS_ERRORS = [FileNotFoundError(2, 'No such file or directory'), IsADirectoryError(21, 'Is a directory'), PermissionError(13, 'Permission denied'),
+             OSError(28, 'No space left on device'), NotADirectoryError(20, 'Not a directory')]
+OS_CMDS = [
+    ('cnfgen', ['kcolor', 3, 'gnp', 5, '.5', 'save', 'gml', '@']), ('cnfgen', ['kcolor', 3, 'complete', 3, 'save', '@.kthlist']),
+    ('cnfgen', ['kcolor', 3, '@.gml']), ('cnfgen', ['kcolor', 3, 'dimacs', '@']), ('cnfgen', ['peb', 'pyramid', 2, 'save', 'kthlist', '@']),
+    ('cnfgen', ['peb', 'kthlist', '@']), ('cnfgen', ['php', 'complete', 3, 2, 'save', 'matrix', '@']), ('cnfgen', ['php', '@.matrix']),
+    ('pbgen', ['php', 'complete', 3, 2, 'save', 'kthlist', '@']), ('pbgen', ['kcolor', 2, '@.kthlist']),
+    ('cnfgen', ['op', 3, '-T', 'xorcomp', 'glrd', 6, 4, 2, 'save', 'matrix', '@']), ('cnfgen', ['op', 3, '-T', 'majcomp', 'kthlist', '@']),
+    ('cnfgen', ['iso', 'complete', 3, '-e', '@.gml']), ('cnfgen', ['subgraph', '-G', 'complete', 3, '-H', 'complete', 2, 'save', '@.dimacs']),
+    ('cnfgen', ['dimacs', '@']), ('pbgen', ['dimacs', '@']), ('cnfgen', ['-o', '@', 'php', 3, 2]), ('pbgen', ['-o', '@', 'php', 3, 2]),
+    ('cnfshuffle', ['-i', '@']), ('cnfshuffle', ['-o', '@']), ('kthlist2pebbling', ['-i', '@']), ('kthlist2pebbling', ['-o', '@']),
+]
+
+
+def _oserrors(ci, ei):
+    """every way the operating system can refuse a file named on the command line ends in a clean error"""
+    import builtins
+    import cnfgen.graphs as G
+    tool, argv = OS_CMDS[ci]
+    mark = os.path.join(DATA, '__refused__')
+    argv = [a.replace('@', mark) if isinstance(a, str) else a for a in argv]
+    real_open = builtins.open
+    err_obj = OS_ERRORS[ei]
+
+    def fake_open(name, *a, **k):
+        if isinstance(name, str) and name.startswith(mark):
+            raise type(err_obj)(err_obj.errno, err_obj.strerror, name)
+        return real_open(name, *a, **k)
+    builtins.open = fake_open
+    try:
+        code, out, err = run_main(tool, argv, stdin_text='p cnf 1 1\n1 0\n' if tool == 'cnfshuffle' else '1\n1 : 0\n')
+    finally:
+        builtins.open = real_open
+    if code == 0:
+        return False                       # the file could not be used: there is no formula to deliver
+    return classify(tool, argv, code, out, err)
+
+
+def h_e_oserrors(ci: int, ei: int) -> bool:
+    """
+    pre: 0 <= ci <= 21 and 0 <= ei <= 4
+    post: _
+    """
+    return untraced(_oserrors, pick(ci, 0, len(OS_CMDS) - 1), pick(ei, 0, 4))
